@@ -1362,6 +1362,15 @@ func (e *Enc) resolveLocal(name string, at *ssa.BasicBlock, st *State) (TV, bool
 	if p, ok := e.params[name]; ok {
 		return p, true
 	}
+	// a captured variable of a closure is a cell: its value is read in the state the expression is
+	// evaluated in (so that old(x) is its value on entry), not taken from the SSA value last assigned
+	for _, fv := range e.fn.FreeVars {
+		if fv.Name() == name {
+			if pl := e.placeOf(fv); pl != nil {
+				return TV{Term: e.loadPlace(pl, st), Sort: s.SortOf(pl.T), T: pl.T}, true
+			}
+		}
+	}
 	for b := at; b != nil; b = b.Idom() {
 		for i := len(b.Instrs) - 1; i >= 0; i-- {
 			switch in := b.Instrs[i].(type) {
